@@ -278,12 +278,12 @@ def sections(tier):
     for kind in ('cubic', 'hex', 'cubic-rot', 'square2d', 'hex2d'):
         for part in range(nparts if kind not in ('square2d', 'hex2d') else 2):
             np_ = nparts if kind not in ('square2d', 'hex2d') else 2
-            secs.append(S('subgroup:%s:%d' % (kind, part), subgroup_section(kind, part, np_), budget_s=170 if tier == 'quick' else 3000,
+            secs.append(S('subgroup:%s:%d' % (kind, part), subgroup_section(kind, part, np_), budget_s=170 if tier == 'quick' else 1200,
                           replayer='subgroup', config=kind, timeout_ms=20000, maxpaths=8))
     for c in (SITE_Q if tier == 'quick' else SITE_T):
-        secs.append(S('site:' + c, site_section(c), budget_s=170 if tier == 'quick' else 3000, replayer='site', config=c, timeout_ms=20000, maxpaths=8))
+        secs.append(S('site:' + c, site_section(c), budget_s=170 if tier == 'quick' else 1200, replayer='site', config=c, timeout_ms=20000, maxpaths=8))
     for c in (WYCK_Q if tier == 'quick' else WYCK_T):
-        secs.append(S('wyckoffpos:' + c, wyckoffpos_section(c), budget_s=170 if tier == 'quick' else 3000, replayer='wyckoffpos', config=c,
+        secs.append(S('wyckoffpos:' + c, wyckoffpos_section(c), budget_s=170 if tier == 'quick' else 1200, replayer='wyckoffpos', config=c,
                       timeout_ms=20000, maxpaths=3000))
     return secs
 
